@@ -69,6 +69,11 @@ def c09_decls(tier, seed=0):
         if W >= 9:
             add(W, [Field("f", T_u(8), [(0, 9), (5, -1)])], "list [0..=8, 5..=3] typed u8 (widths add up to 8)")
             add(W, [Field("f", T_u(4), [(0, 2), (6, -1), (3, 3)])], "list [0..=1, 6..=4, 3..=5] typed u4")
+            # reversed by EXACTLY one (an empty entry): the other entries already supply the full type width
+            add(W, [Field("f", T_u(8), [(0, 8), (9, 0)])], "list [0..=7, 9..=8] typed u8 (empty entry last)")
+            add(W, [Field("f", T_u(8), [(5, 0), (0, 8)])], "list [5..=4, 0..=7] typed u8 (empty entry first)")
+            add(W, [Field("f", T_u(4), [(0, 2), (3, 0), (4, 2)])], "list [0..=1, 3..=2, 4..=5] typed u4 (empty entry in the middle)")
+            add(W, [Field("f", T_u(4), [(0, 4), (1, 0)], array=(2, 4))], "array over list [0..=3, 1..=0] typed [u4; 2] stride 4")
         # arrays
         for n, kind in ((1, "bool"), (1, "u"), (3, "u"), (8, "u")):
             if n > W:
